@@ -221,7 +221,7 @@ func zonesDiffer(a, b *m.Val) bool {
 	w(b, &tb)
 	for _, x := range ta {
 		for _, y := range tb {
-			if x.Go().Equal(y.Go()) && (x.Zone != y.Zone || x.Off != y.Off) {
+			if x.Go().Equal(y.Go()) && !m.SameZone(*x, *y) {
 				return true
 			}
 		}
